@@ -98,6 +98,8 @@ def build(case):
             cube = type(cube)(C.payload(tuple(case["shape"]), k), wcs=cube.wcs, meta={"cube": k})
         ll = W.low_level(cube.wcs)
         spix = np.array(sh[::-1], dtype=float)            # pixel order
+        if hasattr(ll, "_wcs") and hasattr(ll, "_slices_pixel"):
+            ll = ll._wcs          # (a cube reached by range slicing: move the origin of the wrapped WCS)
         if any(sh) and shift_primary and not case.get("share_wcs"):
             if isinstance(ll, W.ProbeWCS):
                 ll.b = ll.b - ll.A @ spix                    # world(p) of cube k = world0(p - s)
